@@ -504,6 +504,20 @@ def check_model(case):
     r = _check_calibration(bp2, J, "maximize", "max_calibrate")
     if r:
         return r
+    # a posterior (sum) query on an object that was max-calibrated before must not reuse the max-beliefs
+    for Q, ev, joint, _ in list(_queries(case, J, O.mk_rng(case.get("qseed", 0), "after-max"), 8))[:8]:
+        want = J.posterior(Q, ev)
+        if want is None:
+            continue
+        desc = f"max_calibrate(); query(variables={Q}, evidence={ev}, joint={joint})"
+        try:
+            got = bp2.query(variables=list(Q), evidence=dict(ev) if ev else None, joint=joint, show_progress=False)
+        except Exception as e:  # noqa
+            return {"key": f"query-after-max_calibrate:raised:{type(e).__name__}", "what": f"{desc} raised {type(e).__name__}: {e}"}
+        r = _cmp_query(got, Q, want, J, joint, "query-after-max_calibrate")
+        if r:
+            r["what"] = desc + ": " + r["what"]
+            return r
     # ---- queries: one long-lived object (query() must restore it) and VariableElimination as a second opinion
     ve_obj = VariableElimination(fresh_model(case))
     ve_fail = None
